@@ -126,9 +126,14 @@ func (Engine) Generate(r *core.Rng, property, tier string) *core.Plan {
 		g.poolHeavy = true
 	case "C11":
 		g.on["badblock"] = true
-		g.badKinds = []string{"reward+1", "reward-1", "cb-shift", "cb-shift-dpos", "cb-addr", "cb-addr-dpos", "cb-count4", "cb-count2", "cb-extra-0", "cb-extra-1", "cb-extra-big"}
+		g.badKinds = []string{"reward+1", "reward-1", "cb-shift", "cb-shift-dpos", "cb-addr", "cb-addr-dpos", "cb-count4", "cb-count2", "cb-drop3", "cb-extra-0", "cb-extra-1", "cb-extra-big"}
+	case "C03":
+		// "never panics" includes the coinbase rules: every coinbase shape, in
+		// both reward regimes
+		g.on["badblock"] = true
+		g.badKinds = []string{"reward+1", "cb-count4", "cb-count2", "cb-drop3", "cb-extra-0", "cb-shift", "merkle", "dup-tx", "second-coinbase", "no-coinbase", "ts-old", "bits"}
 	}
-	if property == "C11" || r.Bool(0.15) {
+	if property == "C11" || property == "C03" && r.Bool(0.4) || r.Bool(0.15) {
 		// the simulated environment reports DPoS v2 as active from an early
 		// height; the issuance schedule is compressed into the run
 		p.SetKnob("v2active", int64(r.Range(1, 10)))
